@@ -12,6 +12,7 @@ import (
 	"fmt"
 	"math"
 	"os"
+	"strconv"
 	"strings"
 
 	"github.com/tsawler/tabula/font"
@@ -32,12 +33,14 @@ func run(e *harness.Env) {
 		"tq: BT [pre] q <1..2 (quick) / 1..3 (thorough) positioning, showing or text-state operators> Q <each kind of next operator> Tj ET, with and without a page cm " +
 		"(q/Q inside a text object is outside ISO 32000-1 Figure 9; reference = tabula's pinned model that q saves Tm/Tlm too; the seq grammar also allows such pairs, token qintext=y); " +
 		"noop: per text-state parameter (Tf size, TL, Tc, Tw, Tz, Ts, Tr) a block 'q <change> Q' at page level and inside the text object must leave all later fragments (origin, size, width) as without the block; " +
+		"mag: magnitude classes - scales 1e-4, 5e-4, 1e-3, 1e3, 1e4 (uniform, non-uniform, rotated 90, rotated 30, each with translation), two nearly singular invertible shears (det 1e-4, 1e-7) and two ordinary matrices (24 in all): " +
+		"every chain of <=2 (quick) / <=3 (thorough) of them as cm around three text objects and through GraphicsExtractor, each as Tm followed by Tj/Td/T*/TD/' under 4 CTMs, each as Form /Matrix under none/each outer cm; " +
 		"One evaluation = one program; distinct = distinct program descriptors; non-trivial = the program is sensitive to the multiplication order, or makes a q/Q/Do restore observable, or has >= 2 compared shows. " +
 		"seq cases are sharded and (when failing) recorded per group = common prefix of 3 operators: one failure record per group x signature x feature class, remaining failing programs are counted in programs_failing"
 	e.Assumptions = []string{
 		"q/Q inside a text object are not allowed by ISO 32000-1 (Figure 9) and Tm/Tlm are not graphics-state parameters there; for such programs (descriptor token qintext=y) the reference states tabula's own pinned model - q pushes the whole GraphicsState including TextMatrix/TextLineMatrix and Q pops it - not a requirement of the standard",
 		"the reference state machine in checks/c08/ref.go implements ISO 32000-1 8.3.4, 8.4.2-8.4.4, 8.10.1, 9.3, 9.4.2 correctly (own 6-number matrix product, row-vector convention)",
-		"numbers are written as short decimal literals; reference and tabula both read them with strconv, tolerance 1e-6 absolute + 1e-9 relative",
+		"numbers are written as decimal literals (no exponents); reference and tabula both read them with strconv. Tolerance: purely relative, 1e-9 x (sum of the magnitudes of all terms that add up to the coordinate, tracked by a companion product of absolute values) + 1e-12 floor for coordinates whose terms are all zero; font size 1e-9 relative. A matrix that is not concatenated changes a coordinate by far more than that at every magnitude class used (1e-4 .. 1e4)",
 		"programs containing ' or \" are handed to Extract() as pre-built operations (the content-stream tokenizer is property C06's subject), all others as bytes to ExtractFromBytes()",
 	}
 	setup()
@@ -46,7 +49,7 @@ func run(e *harness.Env) {
 	for _, sp := range []struct {
 		name string
 		f    func(*harness.Env)
-	}{{"seq", seqSpace}, {"tq", textQSpace}, {"noop", noopSpace}, {"long", longSpace}, {"form", formSpace}, {"gfx", gfxSpace}} {
+	}{{"seq", seqSpace}, {"tq", textQSpace}, {"noop", noopSpace}, {"mag", magSpace}, {"long", longSpace}, {"form", formSpace}, {"gfx", gfxSpace}} {
 		if only == "" || strings.Contains(","+only+",", ","+sp.name+",") {
 			sp.f(e)
 		}
@@ -124,7 +127,7 @@ func judge(p *program) verdict {
 		if w.comparePos {
 			v.compared++
 			l := legacy.out[i]
-			if !near(w.x, l.x, w.tol) || !near(w.y, l.y, w.tol) {
+			if !w.at(l.x, l.y) {
 				sens = true
 			}
 		}
@@ -179,13 +182,13 @@ func judge(p *program) verdict {
 			continue
 		}
 		f := frags[i]
-		if !near(f.X, w.x, w.tol) || !near(f.Y, w.y, w.tol) {
+		if !w.at(f.X, f.Y) {
 			if bad < 0 {
 				bad = i
 			}
 		}
 		l := legacy.out[i]
-		if !near(f.X, l.x, w.tol) || !near(f.Y, l.y, w.tol) {
+		if !(math.Abs(f.X-l.x) <= w.tolx && math.Abs(f.Y-l.y) <= w.toly) {
 			asLegacy = false
 		}
 	}
@@ -201,7 +204,7 @@ func judge(p *program) verdict {
 			alt := simulate(p, variant{keepTm: true})
 			same := true
 			for i, w := range ref.out {
-				if w.comparePos && (!near(frags[i].X, alt.out[i].x, w.tol) || !near(frags[i].Y, alt.out[i].y, w.tol)) {
+				if w.comparePos && (!(math.Abs(frags[i].X-alt.out[i].x) <= w.tolx && math.Abs(frags[i].Y-alt.out[i].y) <= w.toly)) {
 					same = false
 				}
 			}
@@ -222,7 +225,7 @@ func judge(p *program) verdict {
 			continue
 		}
 		f := frags[i]
-		if !near(math.Abs(f.FontSize), w.size, 1e-6+1e-9*w.size) {
+		if !near(math.Abs(f.FontSize), w.size, relTol*w.size+tolFloor) {
 			v.sig = "wrong-fontsize"
 			i, w := i, w
 			v.explain = func() (string, map[string][]byte) {
@@ -378,8 +381,8 @@ func noopSpace(e *harness.Env) {
 					} else {
 						for i := range fb {
 							a, b := kept[i], fb[i]
-							tol := 1e-6 + 1e-9*(math.Abs(b.X)+math.Abs(b.Y))
-							if a.Text != b.Text || !near(a.X, b.X, tol) || !near(a.Y, b.Y, tol) || !near(a.FontSize, b.FontSize, tol) || !near(a.Width, b.Width, tol) {
+							eq := func(x, y float64) bool { return near(x, y, relTol*math.Max(math.Abs(x), math.Abs(y))+tolFloor) }
+							if a.Text != b.Text || !eq(a.X, b.X) || !eq(a.Y, b.Y) || !eq(a.FontSize, b.FontSize) || !eq(a.Width, b.Width) {
 								bad = fmt.Sprintf("fragment #%d: with block %q (%.9g, %.9g) size %.9g width %.9g; without %q (%.9g, %.9g) size %.9g width %.9g",
 									i, a.Text, a.X, a.Y, a.FontSize, a.Width, b.Text, b.X, b.Y, b.FontSize, b.Width)
 								break
@@ -394,6 +397,150 @@ func noopSpace(e *harness.Env) {
 				}
 			}
 		}
+	}
+}
+
+// ---- mag: magnitude classes of cm, Tm and Form /Matrix -------------------------------------------------------
+//
+// "arbitrary affine matrices": scales 1e-4, 5e-4, 1e-3, 1e3, 1e4 in four shapes (uniform, non-uniform, rotated 90,
+// rotated 30; all with a non-zero translation), two nearly singular but invertible shears (determinant 1e-4 and
+// 1e-7) and two ordinary matrices; chains of them (so that 1000x followed by 0.0005x and the reverse occur) as cm,
+// as Tm and as Form /Matrix, for text and for GraphicsExtractor segments.
+func magMatrices() []namedMat {
+	f := func(v float64) string { return strconv.FormatFloat(v, 'f', -1, 64) }
+	c30 := 0.8660254037844386
+	var out []namedMat
+	for _, sc := range []struct {
+		name string
+		v    float64
+	}{{"1e-4", 0.0001}, {"5e-4", 0.0005}, {"1e-3", 0.001}, {"1e3", 1000}, {"1e4", 10000}} {
+		s := sc.v
+		out = append(out,
+			namedMat{"u" + sc.name, [6]string{f(s), "0", "0", f(s), "30", "40"}},
+			namedMat{"n" + sc.name, [6]string{f(4 * s), "0", "0", f(0.8 * s), "5", "-7"}},
+			namedMat{"r90_" + sc.name, [6]string{"0", f(s), f(-s), "0", "300", "0"}},
+			namedMat{"r30_" + sc.name, [6]string{f(s * c30), f(s / 2), f(-s / 2), f(s * c30), "11", "13"}})
+	}
+	out = append(out,
+		namedMat{"sh1e-4", [6]string{"1", "1", "1", "1.0001", "3", "4"}},
+		namedMat{"sh1e-7", [6]string{"1", "1", "1", "1.0000001", "3", "4"}},
+		cmMats[0], cmMats[1])
+	return out
+}
+
+func magSpace(e *harness.Env) {
+	mats := magMatrices()
+	maxChain := 2
+	if e.Thorough() {
+		maxChain = 3
+	}
+	var chains [][]namedMat
+	var rec func(cur []namedMat)
+	rec = func(cur []namedMat) {
+		if len(cur) > 0 {
+			chains = append(chains, append([]namedMat{}, cur...))
+		}
+		if len(cur) == maxChain {
+			return
+		}
+		for _, m := range mats {
+			rec(append(cur, m))
+		}
+	}
+	rec(nil)
+	chainName := func(c []namedMat) string {
+		var n []string
+		for _, m := range c {
+			n = append(n, m.name)
+		}
+		if len(n) == 0 {
+			return "-"
+		}
+		return strings.Join(n, ",")
+	}
+	run := func(desc string, p *program) {
+		if !e.Own(desc) {
+			return
+		}
+		e.Begin(desc)
+		v := judge(p)
+		if v.sig != "" {
+			det, files := v.explain()
+			e.Fail(desc, v.sig, det, files)
+			return
+		}
+		e.Pass(desc, true, "mag:"+v.outcome)
+	}
+	big := matOp("Tm", namedMat{"x2000", [6]string{"2000", "0", "0", "2000", "1", "2"}})
+	texts := []struct {
+		name string
+		ops  []op
+	}{
+		{"td", []op{opBT, opsTd[0], opTj, opET}},
+		{"tm12-td", []op{opBT, opsTm[1], opsTd[1], opTj, opET}},
+		{"tm2000-tstar", []op{opBT, big, opTstar, opTj, opET}},
+	}
+	// (a) chains of cm, text inside, text after the Q
+	for _, ch := range chains {
+		for _, tx := range texts {
+			p := &program{shareFonts: true}
+			p.ops = append(p.ops, opsTf[0], opsTL[0], opq)
+			for _, m := range ch {
+				p.ops = append(p.ops, matOp("cm", m))
+			}
+			p.ops = append(p.ops, tx.ops...)
+			p.ops = append(p.ops, opQ, opBT, opsTd[0], opTj, opET)
+			run(harness.D("space", "mag", "kind", "cm", "chain", chainName(ch), "text", tx.name), p)
+		}
+	}
+	// (b) Tm of every class, followed by each line-matrix relative move, under a few CTMs
+	ctms := [][]namedMat{nil, {cmMats[2]}, {mats[4]}, {mats[12]}} // none, ordinary non-uniform, u5e-4, u1e3
+	for _, ctm := range ctms {
+		for _, m := range mats {
+			for _, after := range []op{opTj, opsTd[0], opTstar, opsTD[0], opQuote} {
+				p := &program{shareFonts: true}
+				p.ops = append(p.ops, opsTf[0], opsTL[0])
+				for _, c := range ctm {
+					p.ops = append(p.ops, matOp("cm", c))
+				}
+				p.ops = append(p.ops, opBT, matOp("Tm", m), after)
+				if !isShow(after.k) {
+					p.ops = append(p.ops, opTj)
+				}
+				p.ops = append(p.ops, opET)
+				run(harness.D("space", "mag", "kind", "tm", "ctm", chainName(ctm), "tm", m.name, "after", after.code), p)
+			}
+		}
+	}
+	// (c) Form /Matrix of every class under no / every outer cm
+	for _, outer := range append([][]namedMat{nil}, chains[:len(mats)]...) {
+		for _, m := range mats {
+			for _, wrap := range []string{"bare", "q"} {
+				var oo []op
+				for _, c := range outer {
+					oo = append(oo, matOp("cm", c))
+				}
+				p := buildFormProgram(oo, m, false, false, "td", wrap, "td")
+				run(harness.D("space", "mag", "kind", "form", "outer", chainName(outer), "matrix", m.name, "wrap", wrap), p)
+			}
+		}
+	}
+	// (d) the same cm chains through GraphicsExtractor
+	seg := numOp("line", "", "3", "4", "13", "9")
+	seg.code = "seg"
+	for _, ch := range chains {
+		desc := harness.D("space", "mag", "kind", "gfx", "chain", chainName(ch))
+		if !e.Own(desc) {
+			continue
+		}
+		p := &program{}
+		p.ops = append(p.ops, opq)
+		for _, m := range ch {
+			p.ops = append(p.ops, matOp("cm", m), seg)
+		}
+		p.ops = append(p.ops, opQ, seg)
+		e.Begin(desc)
+		judgeGfx(e, desc, p)
 	}
 }
 
@@ -978,15 +1125,15 @@ func judgeGfx(e *harness.Env, desc string, p *program) {
 		pts := [2][2]float64{{l.Start.X, l.Start.Y}, {l.End.X, l.End.Y}}
 		for k := 0; k < 2; k++ {
 			w, lg := ref.out[2*i+k], legacy.out[2*i+k]
-			if !near(pts[k][0], w.x, w.tol) || !near(pts[k][1], w.y, w.tol) {
+			if !w.at(pts[k][0], pts[k][1]) {
 				if bad < 0 {
 					bad = 2*i + k
 				}
 			}
-			if !near(pts[k][0], lg.x, w.tol) || !near(pts[k][1], lg.y, w.tol) {
+			if !(math.Abs(pts[k][0]-lg.x) <= w.tolx && math.Abs(pts[k][1]-lg.y) <= w.toly) {
 				asLegacy = false
 			}
-			if !near(w.x, lg.x, w.tol) || !near(w.y, lg.y, w.tol) {
+			if !w.at(lg.x, lg.y) {
 				sens = true
 			}
 		}
